@@ -25,6 +25,7 @@ RULE += (" Also: fault types KeyError/IndexError/AssertionError and instances of
 RULE += (' Also: a source whose plain (non-async) __anext__ fails when called.')
 RULE += (' Also: builtin callables handing back awaitables (abs, operator.getitem, deque.popleft) against the same builtin behind a lambda, every failing position; class callables.')
 RULE += (' Also: the siblings of a failed tee child are compared to the end (class-based asynchronous sources).')
+RULE += (' Also: source / callable failures of the kind RuntimeError caused by Stop(Async)Iteration.')
 ASSUMPTIONS = ["Stop(Async)Iteration / IndexError are never injected (their meaning is the language's, not the library's)",
                "closing a faulted source is release, not use"]
 EXHAUSTIVE = {"quick": False, "thorough": False}
@@ -33,7 +34,8 @@ N_SPECS = {"quick": 40000, "thorough": 1500000}
 SRC_FL = ["async_class", "async_gen", "sync_iter", "sync_gen", "getitem_seq", "async_class_bare", "async_iterable", "sync_iterable", "async_class_plainnext"]
 FN_FL = ["def", "async_def", "callobj", "partial", "awaitobj", "classobj"]
 EXC = ["Injected", "TypeError", "ValueError", "LookupError", "InjectedBase", "RuntimeError", "AttributeError", "KeyError",
-       "IndexError", "AssertionError", "Exception", "BaseException"]
+       "IndexError", "AssertionError", "Exception", "BaseException", "RuntimeError_caused_by_StopIteration",
+       "RuntimeError_caused_by_StopAsyncIteration"]
 
 
 BUILTIN_TOOLS = ["map", "filter", "filterfalse", "takewhile", "dropwhile", "max_key", "min_key", "sorted_key",
